@@ -9,7 +9,8 @@ PID = 'C19'
 CHK = 'Chk_C19'
 IMPORTS = ('Threads',)
 SHARD = 30
-RULE = ('in-process runs of 2..6 tests each starting 0..3 threads through threading.Thread or _thread.start_new_thread, each either '
+RULE = ('in-process runs of 2..6 tests each starting 0..3 threads through threading.Thread or _thread.start_new_thread (half of the latter '
+        'call threading.current_thread() and so get a _DummyThread record that threading never drops), each either '
         'parked on an event (released by a later test, or never) or finished and joined before the test ends, named so that some match '
         'an --ignore-new-thread pattern; the OS idents handed out are recorded by the world; "left new threads behind" blocks are parsed '
         'from the output; non-trivial = at least one parked thread that a later test releases or that shares a test with another thread')
@@ -37,6 +38,8 @@ def generate(rng, tier, rep):
                     parked.remove(k)
                     rel = [k]
                 specs.append({'api': api, 'name': name, 'hold': hold, 'release': rel})
+                if api == '_thread' and rng.random() < 0.5:
+                    specs[-1]['cur'] = True      # the thread calls threading.current_thread() (as logging does)
                 if hold:
                     parked.append(count)
                 count += 1
@@ -58,6 +61,7 @@ def generate(rng, tier, rep):
         cases.append({'layers': [], 'tests': tests, 'options': opts})
         rep.count('tests=%d' % len(tests))
         rep.count('threads=%d' % count)
+        rep.count('lowlevel-registered=%d' % sum(1 for T in tests for s in T['threads'] if s.get('cur')))
     return cases
 
 
@@ -77,11 +81,11 @@ def ignored(name, opts):
 
 def history(c, o):
     """Rebuild the thread history from the world and the idents it logged.
-    Returns (events, {test: {printed name: identity}}) where the name map covers the threads alive at the end of that test."""
+    Returns (events, {test: {OS ident: identity}}) where the map covers the threads alive at the end of that test."""
     recs = [r for r in o['trace'] if r[1] == 'thread']
     k = 0                      # running index of started threads; identity = k + 10
     hist = []
-    alive = {}                 # identity -> printed name
+    alive = {}                 # identity -> OS ident
     by_test = {}
     for t, T in enumerate(c['tests']):
         hist.append('TBegin %d' % t)
@@ -94,31 +98,34 @@ def history(c, o):
             rec = recs[k] if k < len(recs) else None
             ident = rec[3][2] if rec else 0
             name = rec[3][1] if rec else '?'
-            hist.append(('TSTART', k + 10, ident, s['api'] == 'threading', ignored(name, c['options'])))
-            alive[k + 10] = name
+            # which object stands for the thread (threading's registry, stale _DummyThread records included) is decided by the model
+            hist.append(('TSTART', k + 10, ident, s['api'] == 'threading', bool(s.get('cur')), ignored(name, c['options'])))
+            alive[k + 10] = ident
             if not s.get('hold'):
                 hist.append('TFinish %d' % (k + 10))
                 alive.pop(k + 10, None)
             k += 1
         hist.append('TEnd %d' % t)
-        by_test[t] = {nm: i for i, nm in alive.items()}
+        by_test[t] = {idn: i for i, idn in alive.items()}
     return hist, by_test
 
 
 def parse_reports(c, o, by_test):
+    """(test, identities) per "left new threads behind" block; threads are told apart by the OS ident their repr shows
+    (alive threads have distinct idents)."""
     out = []
     lines = o.get('stdout', '').splitlines()
     for i, ln in enumerate(lines):
         if ln.strip() == HDR and i + 2 < len(lines):
             m = re.match(r'test_(\d+) ', lines[i + 1].strip())
             t = int(m.group(1)) if m else 9999
-            names = by_test.get(t, {})
+            idents = by_test.get(t, {})
             body = lines[i + 2]
             ids = []
-            for nm in re.findall(r'<\w*Thread\(([^,]+),', body):
-                ids.append(names.get(nm, 9998))
-            for ident in re.findall(r'DummyThread (\d+)', body):
-                ids.append(names.get('Dummy-%s' % ident, 9997))
+            for ident in re.findall(r'<\w*Thread\([^<>]*? (\d+)\)>', body):
+                ids.append(idents.get(int(ident), 9998))
+            for ident in re.findall(r'DummyThread (\d+), started', body):
+                ids.append(idents.get(int(ident), 9997))
             out.append((t, ids))
     return out
 
@@ -136,11 +143,11 @@ def to_coq(c, o):
     ev = []
     for h in hist:
         if isinstance(h, tuple):
-            ev.append('TStart {| th_id := %d; th_ident := %d; th_known := %s; th_ignored := %s |}' % (h[1], ic(h[2]), g_bool(h[3]), g_bool(h[4])))
+            ev.append('TStart {| th_id := %d; th_ident := %d; th_known := %s; th_cur := %s; th_ignored := %s |}' % (h[1], ic(h[2]), g_bool(h[3]), g_bool(h[4]), g_bool(h[5])))
         else:
             ev.append(h)
     reps = parse_reports(c, o, names)
-    return '{| init := [{| th_id := 1; th_ident := 1; th_known := true; th_ignored := false |}]; hist := %s; r_reports := %s |}' % (
+    return '{| init := [{| th_id := 1; th_ident := 1; th_known := true; th_cur := false; th_ignored := false |}]; hist := %s; r_reports := %s |}' % (
         g_list(ev), g_list(['(%d%%nat, %s)' % (t, g_nats(ids)) for t, ids in reps]))
 
 
